@@ -6,6 +6,8 @@ RUNS = {"quick": 5000, "thorough": 120000}
 BUDGET_S = {"quick": 50, "thorough": 840}
 CHUNK = 50
 RULE = ("One evaluation = one seeded history of gwf invocations interleaved with scheduler transitions: every pinned state code of the phase (Slurm 20 short codes and 15 sacct names, SGE letters, LSF states), unpinned codes (no crash), foreign jobs whose ids are prefixes/extensions of ours, accounting on/off and lagging, sacct batch size 1-3 (function default patched and enforced by the sim), purged queue, `gwf cancel` (also rejected by the scheduler for finished jobs), local pool incl. restarts (known finding F-C08-2). Oracle: every status row whose job is live/failed/cancelled equals the simulated scheduler's view of the job id returned at the target's latest submission (live queue over accounting); finished/no-record rows must be a file-based decision; the tracked-jobs file maps each target to that id exactly.")
+RULE += (" Histories also contain interrupted or failing gwf invocations (hard kill at a seam event, Ctrl-C, ENOSPC, a failing or "
+         "unreachable scheduler command) - only the invocations after them are judged - and 1-2 % of the runs use 140-260 targets.")
 PROFILE = dict(
     nontrivial_probes=['backend_state_rows'],
     backends=["slurm", "slurm", "sge", "lsf", "local", "local"],
